@@ -44,6 +44,7 @@ struct Conc {
     mid: bool,     // chunk boundaries in the middle of a line instead of at a line end
     chunked: bool, // Transfer-Encoding: chunked instead of Content-Length
     via_file: bool, // sym only: ask through SymbolSupplier::locate_file(FileKind::BreakpadSym) instead of locate_symbols
+    redirect: bool, // the server first answers 302 with a Location on itself and plays the script on the redirected request
 }
 
 const DEBUG_ID: &str = "0123456789ABCDEF0123456789ABCDEF0";
@@ -171,14 +172,26 @@ fn serve(mut s: TcpStream, script: UrlScript, chunks: Vec<Vec<u8>>, conc: Conc, 
         }
     }
     let first = String::from_utf8_lossy(&req).lines().next().unwrap_or("").to_string();
-    log.lock().unwrap().push(first);
+    let target = first.split(' ').nth(1).unwrap_or("/").to_string();
+    if conc.redirect && !target.starts_with("/moved/") {
+        // the requested URL is what the client is told about and what the cache note records; the redirected request is not logged
+        log.lock().unwrap().push(first);
+        let _ = write!(s, "HTTP/1.1 302 Found\r\nLocation: /moved{}\r\nContent-Length: 0\r\nConnection: close\r\n\r\n", target);
+        return;
+    }
+    if !conc.redirect {
+        log.lock().unwrap().push(first);
+    }
     let n = chunks.len();
     if script.drop_at == n + 2 {
         stall(&stop); // never answer: the caller gives up while waiting for the response head
         return;
     }
     if script.status != 200 {
-        let _ = write!(s, "HTTP/1.1 {} Nope\r\nContent-Length: 9\r\nConnection: close\r\n\r\nnot here\n", script.status);
+        // the error page is a complete, parseable symbol file: only the status line says that it is not the answer
+        let body: Vec<u8> = chunks.concat();
+        let _ = write!(s, "HTTP/1.1 {} Nope\r\nContent-Length: {}\r\nConnection: close\r\n\r\n", script.status, body.len());
+        let _ = s.write_all(&body);
         return;
     }
     let total: usize = chunks.iter().map(|c| c.len()).sum();
@@ -365,12 +378,13 @@ fn main() {
                 }
             }
             let base = tempfile::Builder::new().prefix("vf-http-").tempdir().unwrap();
-            let concs = [Conc { mid: false, chunked: false, via_file: false }, Conc { mid: true, chunked: true, via_file: false }, Conc { mid: true, chunked: false, via_file: false }, Conc { mid: false, chunked: true, via_file: false }];
+            let concs = [Conc { mid: false, chunked: false, via_file: false, redirect: false }, Conc { mid: true, chunked: true, via_file: false, redirect: false }, Conc { mid: true, chunked: false, via_file: false, redirect: false }, Conc { mid: false, chunked: true, via_file: false, redirect: false }];
             let mut jobs = Vec::new();
             for (i, c) in cases.iter().enumerate() {
                 for k in 0..nconc {
                     let mut conc = concs[(i + k) % 4];
                     conc.via_file = k % 2 == 1 && c.kind == "sym";
+                    conc.redirect = (i / 3 + k) % 4 == 0 && c.scripts.iter().all(|s| s.drop_at == n + 1);
                     // waiting after the last chunk only exists when the end of the body is not yet known
                     if c.scripts.iter().any(|s| s.drop_at == n) {
                         conc.chunked = true;
@@ -442,7 +456,7 @@ fn main() {
                     std::fs::create_dir_all(&tmp).unwrap();
                     let chunks = body_chunks(kind, 2, 0, false, 1);
                     let body = chunks.concat();
-                    let mut server = Server::start(case.scripts[0].clone(), chunks, Conc { mid: false, chunked: false, via_file: false });
+                    let mut server = Server::start(case.scripts[0].clone(), chunks, Conc { mid: false, chunked: false, via_file: false, redirect: false });
                     let supplier = HttpSymbolSupplier::new(vec![format!("http://127.0.0.1:{}/sub/", server.port)], cache.clone(), tmp.clone(), vec![], Duration::from_secs(20));
                     let m = module(name, name);
                     let ok = rt.block_on(async {
@@ -505,7 +519,7 @@ fn main() {
                     let mut chunks: Vec<Vec<u8>> = body.chunks(step).map(|c| c.to_vec()).collect();
                     if chunks.is_empty() { chunks.push(vec![]); }
                     let n = chunks.len();
-                    let mut server = Server::start(UrlScript { status: 200, cut: n, bad_at: 0, drop_at: n + 1 }, chunks, Conc { mid: false, chunked: *chunked, via_file: false });
+                    let mut server = Server::start(UrlScript { status: 200, cut: n, bad_at: 0, drop_at: n + 1 }, chunks, Conc { mid: false, chunked: *chunked, via_file: false, redirect: false });
                     let supplier = HttpSymbolSupplier::new(vec![format!("http://127.0.0.1:{}/sub/", server.port)], cache.clone(), tmp.clone(), vec![], Duration::from_secs(60));
                     let m = module("lib.so", "lib.so");
                     let got = rt.block_on(async { tokio::time::timeout(Duration::from_secs(60), supplier.locate_symbols(&m)).await });
@@ -563,7 +577,7 @@ fn main() {
                 std::fs::create_dir_all(&tmp).unwrap();
                 let chunks = body_chunks("sym", 2, *bad_at, false, 1);
                 let body = chunks.concat();
-                let mut server = Server::start(UrlScript { status: 200, cut: *cut, bad_at: *bad_at, drop_at: 3 }, chunks, Conc { mid: false, chunked: false, via_file: false });
+                let mut server = Server::start(UrlScript { status: 200, cut: *cut, bad_at: *bad_at, drop_at: 3 }, chunks, Conc { mid: false, chunked: false, via_file: false, redirect: false });
                 let supplier = HttpSymbolSupplier::new(vec![format!("http://127.0.0.1:{}/sub/", server.port)], cache.clone(), tmp.clone(), vec![], Duration::from_secs(20));
                 let m = module("lib.so", "lib.so");
                 let got = rt.block_on(async { tokio::time::timeout(Duration::from_secs(15), supplier.locate_file(&m, FileKind::BreakpadSym)).await });
